@@ -9,7 +9,7 @@ import XotModel.Lemmas.ForestBasic
 import XotModel.Lemmas.FspecDetach
 import XotModel.Lemmas.FspecAppend
 import XotModel.Lemmas.FspecContent
-import XotModel.Lemmas.FspecSurvivor
+import XotModel.Lemmas.FspecString
 
 namespace XotModel.Props
 open XotModel XotModel.Spec
@@ -249,6 +249,34 @@ theorem C05_survivor_insertBefore {f : Forest} {r c : Nat} {tr tc : Str} (inv : 
     (f.insertBefore r c).2 = .ok ∧ (f.insertBefore r c).1.isLive c = false ∧
       (f.insertBefore r c).1.value? r = some (.text (tc ++ tr)) :=
   insertBefore_survivor inv norm hc hsc hsr hsame hprev htr htc
+
+/-! ### String values
+
+  `Forest.strValues` lists (handle, string value) of every node that is not a text node, in
+  document order; `plainMove dest c f` is the same move on the plain ordered-tree model with
+  consolidation off (cut, graft, nothing merged).  After a successful move every non-text node —
+  in particular every ancestor of the old and of the new place — has exactly the string value the
+  unmerged move gives it, and the non-text nodes are the same, in the same order. -/
+
+theorem C05_stringvalue_append {f : Forest} {p c : Nat} (inv : f.Inv) (norm : f.Normal)
+    (hok : (f.append p c).2 = .ok) :
+    (f.append p c).1.strValues = (plainMove (.lastChildOf p) c f).strValues :=
+  append_strValues inv norm hok
+
+theorem C05_stringvalue_prepend {f : Forest} {p c : Nat} (inv : f.Inv) (norm : f.Normal)
+    (hok : (f.prepend p c).2 = .ok) :
+    (f.prepend p c).1.strValues = (plainMove (.firstNormalChildOf p) c f).strValues :=
+  prepend_strValues inv norm hok
+
+theorem C05_stringvalue_insertAfter {f : Forest} {r c : Nat} (inv : f.Inv) (norm : f.Normal)
+    (hok : (f.insertAfter r c).2 = .ok) :
+    (f.insertAfter r c).1.strValues = (plainMove (.after r) c f).strValues :=
+  insertAfter_strValues inv norm hok
+
+theorem C05_stringvalue_insertBefore {f : Forest} {r c : Nat} (inv : f.Inv) (norm : f.Normal)
+    (hok : (f.insertBefore r c).2 = .ok) :
+    (f.insertBefore r c).1.strValues = (plainMove (.before r) c f).strValues :=
+  insertBefore_strValues inv norm hok
 
 /-- When a text node is appended after a text node, the EARLIER node survives: it keeps its
     handle and carries both data, the appended node is gone. -/
